@@ -174,7 +174,11 @@ def run(seed, checks, tier, verif, via_repo, seedenv):
 
 def table():
     rows = []
-    for s in sorted(os.listdir(SEEDED)):
+
+    def nat(s):
+        m = re.match(r"C(\d+)-(\d+)", s)
+        return (int(m.group(1)), int(m.group(2))) if m else (99, 0)
+    for s in sorted(os.listdir(SEEDED), key=nat):
         mp = os.path.join(SEEDED, s, "meta.json")
         if not os.path.exists(mp):
             continue
@@ -182,9 +186,19 @@ def table():
         rp = os.path.join(SEEDED, s, "results.json")
         r = json.load(open(rp)) if os.path.exists(rp) else {}
         caught = sorted({k.split(":")[0] for k, v in r.items() if v["exit"] == 1 and v["violation"]})
-        own = [f"{k.split(':')[1]}: {'caught' if v['exit'] == 1 else 'MISSED (exit %s)' % v['exit']}"
-               for k, v in r.items() if k.split(":")[0] == m["property"]]
-        rows.append(f"| {s} | {(m.get('summary') or '')[:110]} | {'; '.join(own)} | {' '.join(caught)} |")
+
+        def how(v):
+            if v["exit"] == 1:
+                return "caught" + (" (no-failing-input-found)" if "no-failing-input-found" in (v.get("violation") or "") else "")
+            return "MISSED (exit %s)" % v["exit"]
+        own = [f"{k.split(':')[1]}: {how(v)}" for k, v in r.items() if k.split(":")[0] == m["property"]]
+        rc = m.get("reconfirmed") or {}
+        note = ""
+        if rc and rc.get("valid") is False:
+            note = ("superseded at /repo %s (%s); last result on the tree it applied to: "
+                    % (rc.get("head", "?"), "patch no longer applies" if rc.get("applies") is False
+                       else "no longer breaks the property"))
+        rows.append(f"| {s} | {(m.get('summary') or '')[:110]} | {note}{'; '.join(own)} | {' '.join(caught)} |")
     print("| seed | change | own check | caught by |\n|---|---|---|---|")
     print("\n".join(rows))
 
